@@ -135,6 +135,11 @@ def run_once(scn, prop: str, family: str, idx: int, ch: Chooser, tier: str) -> d
     """Execute one run.  Returns a JSON-able result dict."""
     ctx = Ctx(prop, family, idx, ch, tier)
     viol = None
+    # the RNG seam: numpy's process-global generator never carries state from one run
+    # into the next (replay and shrinking re-execute runs in other processes)
+    np = sys.modules.get("numpy")
+    if np is not None:
+        np.random.seed(int.from_bytes(hashlib.sha256(f"rng|{prop}|{family}|{idx}".encode()).digest()[:4], "big"))
     try:
         scn(ctx)
     except Violation as v:
